@@ -8,6 +8,7 @@ import (
 	"reflect"
 	"strconv"
 	"strings"
+	"sync"
 
 	"github.com/vimeo/dials"
 	"github.com/vimeo/dials/ptrify"
@@ -224,6 +225,9 @@ func c11AltIntText(r *fw.Rand, lf *gen.Leaf, v reflect.Value) (string, bool) {
 func runC11(w *fw.Worker) {
 	// the worker's own environment must not supply variables (PATH, HOME, ...)
 	os.Clearenv()
+	if w.ReplayCase < 0 && w.Shard < 4 {
+		c11Concurrent(w)
+	}
 	var noPrefixVars []string
 	envVars := 0
 	noise := int64(0)
@@ -408,4 +412,81 @@ func c11Classify(spec *gen.Spec, leaves []*gen.LeafRef, layer *gen.Layer, d stri
 		}
 	}
 	return "unknown-leaf:" + kind
+}
+
+// ---- concurrent use of the environment source
+
+type c11UniInner struct {
+	ÖlStand int
+	Name    string
+}
+
+// c11Uni: field names that start with, contain and end in non-ASCII letters.
+type c11Uni struct {
+	Übertragung   int
+	ÉcouteAdresse string
+	Inner         c11UniInner
+	CaféID        int
+}
+
+// c11Concurrent: several goroutines (several Dials instances of one process) ask environment sources for their values
+// at the same time; each must get exactly what a single caller gets.
+func c11Concurrent(w *fw.Worker) {
+	vars := map[string]string{"UNI_ÜBERTRAGUNG": "11", "UNI_ÉCOUTE_ADRESSE": "[::1]:80", "UNI_INNER_ÖL_STAND": "7", "UNI_INNER_NAME": "n", "UNI_CAFÉ_ID": "3"}
+	for k, v := range vars {
+		os.Setenv(k, v)
+	}
+	defer func() {
+		for k := range vars {
+			os.Unsetenv(k)
+		}
+	}()
+	load := func() (c11Uni, error) {
+		d, err := dials.Config(context.Background(), &c11Uni{}, &env.Source{Prefix: "UNI"})
+		if err != nil {
+			return c11Uni{}, err
+		}
+		return *d.View(), nil
+	}
+	want := c11Uni{Übertragung: 11, ÉcouteAdresse: "[::1]:80", Inner: c11UniInner{ÖlStand: 7, Name: "n"}, CaféID: 3}
+	if got, err := load(); err != nil || got != want {
+		w.Violation(-1, "env-result-differs:non-ascii-names", fmt.Sprintf("single caller: got %+v err %v, want %+v", got, err, want), map[string]any{"variables": vars})
+		return
+	}
+	nG, per := 8, w.Pick(150, 1500)
+	var wg sync.WaitGroup
+	var mu sync.Mutex
+	first := ""
+	for g := 0; g < nG; g++ {
+		wg.Add(1)
+		go func() {
+			defer wg.Done()
+			defer func() {
+				if p := recover(); p != nil {
+					mu.Lock()
+					if first == "" {
+						first = fmt.Sprintf("panic: %v", p)
+					}
+					mu.Unlock()
+				}
+			}()
+			for k := 0; k < per; k++ {
+				got, err := load()
+				if err != nil || got != want {
+					mu.Lock()
+					if first == "" {
+						first = fmt.Sprintf("got %+v err %v", got, err)
+					}
+					mu.Unlock()
+					return
+				}
+			}
+		}()
+	}
+	wg.Wait()
+	w.Eval(int64(nG * per))
+	w.Count("concurrent_env_loads_compared", int64(nG*per))
+	if first != "" {
+		w.Violation(-1, "env-result-differs:concurrent-callers", fmt.Sprintf("%d goroutines loading the same environment at once: %s; a single caller gets %+v", nG, first, want), map[string]any{"variables": vars})
+	}
 }
